@@ -22,9 +22,10 @@ def main():
     for mp in sorted(glob.glob(os.path.join(ROOT, "seeded", "agent-*", "meta.json"))):
         m = json.load(open(mp))
         name = m["name"]
-        rnd = {"a": 1, "b": 2, "c": 3, "d": 4, "e": 5, "f": 6, "g": 7, "h": 8}.get(name[-1], 0)
+        rnd = {"a": 1, "b": 2, "c": 3, "d": 4, "e": 5, "f": 6, "g": 7, "h": 8, "i": 9}.get(name[-1], 0)
         checks = m.get("checks", {})
         caught = [p for p, r in checks.items() if r.get("exit") == 1]
+        caught += ["%s (thorough tier only)" % p for p in m.get("thorough_only", {})]
         hist = m.get("detection_history", "")
         if m.get("obsolete"):
             hist += " -- NOW OBSOLETE: " + m["obsolete"]
